@@ -1,4 +1,5 @@
 ---------------------------- MODULE MCLifecycle ----------------------------
 EXTENDS Lifecycle
 MCFeeds == { <<>>, <<"data">>, <<"err">>, <<"eof">>, <<"data","err">>, <<"data","eof">> }
+MCFeedsSmall == { <<>>, <<"err">> }          \* enough for the vacuity guards (older protocols must be rejected)
 =============================================================================
